@@ -50,8 +50,33 @@ JudgeRanks(e, o) ==
                       ~(\E k \in ks : /\ (o.iv.kind # "lower" => o.iv.lo <= k + 1)
                                       /\ (o.iv.kind # "upper" => o.iv.hi >= k - 1))}
 
+\* ---- populations beyond 2^32: n = a * 2^p, q = j / 32, ranks as limbs --------------------------
+BigN(e) == BigShl(BigOfInt(e.nbig.a), e.nbig.p)
+BigK(e) == BigShl(BigMulInt(BigOfInt(e.nbig.a), e.qj), e.nbig.p - 5)   \* q * n exactly
+BL(x) == BigOfLimbs(1, x)
+JudgeBig(e, o) ==
+    IF o.tag = "panic" THEN {"C03.no_panic"}
+    ELSE IF o.tag = "err" THEN {"C03.domain"}                          \* 2 <= k <= n - 2 by construction
+    ELSE {c \in {"C03.kind"} : o.iv.kind # e.confv.kind}
+         \cup {c \in {"C03.in_range"} :
+                 \/ (o.iv.kind = "two" /\ ~(BigLe(BL(o.iv.lo), BL(o.iv.hi)) /\ BigLt(BL(o.iv.hi), BigN(e))))
+                 \/ (o.iv.kind = "upper" /\ ~BigLt(BL(o.iv.lo), BigN(e)))
+                 \/ (o.iv.kind = "lower" /\ ~BigLt(BL(o.iv.hi), BigN(e)))}
+         \cup {c \in {"C03.brackets"} :
+                 (e.confv.kind = "two" \/ HalfOrMoreLevel(e.confv)) /\
+                 ~(/\ (o.iv.kind # "lower" => BigLe(BL(o.iv.lo), BigAdd(BigK(e), BigOfInt(1))))
+                   /\ (o.iv.kind # "upper" => BigLe(BigSub(BigK(e), BigOfInt(1)), BL(o.iv.hi))))}
+         \* the interval is narrow: |rank - k| <= 4 sqrt(n)  (z <= 3.9, sqrt(q(1-q)) <= 1/2, Wilson shift O(1))
+         \cup {c \in {"C03.ranks"} :
+                 LET far(x) == LET dd == BigSub(BL(x), BigK(e)) IN BigLt(BigMulInt(BigN(e), 16), BigMul(dd, dd)) IN
+                 (o.iv.kind # "lower" /\ far(o.iv.lo)) \/ (o.iv.kind # "upper" /\ far(o.iv.hi))}
+
 Failed(e) ==
-  CASE e.op = "quant.ranks" ->
+  CASE e.op = "quant.big" ->
+         JudgeBig(e, e.out)
+         \cup {c \in {"C03.entry_points_agree"} : e.out # e.out_stats \/ e.out # e.out_merged}
+         \cup {c \in {"C03.population_beyond_32_bits"} : BL(e.nlimbs) # BigN(e)}
+    [] e.op = "quant.ranks" ->
          JudgeRanks(e, e.out)
          \cup {c \in {"C03.entry_points_agree"} : e.out # e.out_stats}
          \cup {c \in {"C03.product_observed"} : IsFin(e.qv) /\ DySign(FDy(e.qv)) >= 0 /\ ~CorrectlyRounded(e.qn, QProd(e))}
@@ -75,7 +100,9 @@ Failed(e) ==
                         /\ (o.iv.kind # "upper" => o.iv.hi = sorted[r.iv.hi + 1]))}
 
 Clauses(e) ==
-  CASE e.op = "quant.ranks" ->
+  CASE e.op = "quant.big" -> {"C03.no_panic", "C03.entry_points_agree", "C03.population_beyond_32_bits"}
+                             \cup (IF e.out.tag = "ok" THEN {"C03.kind", "C03.in_range", "C03.ranks"} ELSE {})
+    [] e.op = "quant.ranks" ->
          {"C03.no_panic", "C03.domain", "C03.entry_points_agree"}
          \cup (IF e.out.tag = "ok" THEN {"C03.kind", "C03.in_range", "C03.ranks", "C03.kind." \o e.confv.kind}
                                          \cup (IF e.confv.kind = "two" \/ HalfOrMoreLevel(e.confv) THEN {"C03.brackets"} ELSE {})
